@@ -22,20 +22,23 @@ func init() {
 			"R4 the DWR handler builds m.Answer(Success) with Origin-Host/Origin-Realm from the settings and writes it to the connection the request came from, and sm.New registers it for DWR. " +
 			"R2 also: the acknowledgement channel has a slot of one and is drained before each DWR is sent (an answer that arrives before the sender waits is neither lost nor attributed to a later request); R4 also: the DWR handler answers every request that passed DWR.Parse, on every path. " +
 			"R3 also: the DWA handler is registered after the acknowledgement channel is made, on every path and in the same activation — not inside a function literal that may run once per client. " +
+			"R5 nothing but the application's own setting puts a deadline on reading from a connection: every SetReadDeadline/SetDeadline on a transport is computed from Server.ReadTimeout under its > 0 test, and no library function assigns Server.ReadTimeout (a connection is legitimately idle for a whole WatchdogInterval between two watchdog rounds; a read deadline the library derived from anything else closes a peer that answers every DWR). " +
 			"Not decided: wall-clock periods, answer patterns as histories.",
 		Rules: map[string]string{
 			"R1": "watchdog: DWR only on the WatchdogInterval timer case; started only after a successful handshake with EnableWatchdog",
 			"R2": "DWR sender: MaxRetransmits+1 transmissions of one request, RetransmitInterval spacing, ack → no Close, exhaustion → Close",
 			"R3": "DWA forwarded as acknowledgement only when its Result-Code is Success, without blocking",
 			"R4": "DWR answered with Success DWA carrying the local identity, on the same connection; registered in sm.New",
+			"R5": "read deadlines come from the application's Server.ReadTimeout only; the library never assigns that setting",
 		},
-		MinInstances: map[string]int{"R1": 2, "R2": 5, "R3": 1, "R4": 3},
+		MinInstances: map[string]int{"R1": 2, "R2": 5, "R3": 1, "R4": 3, "R5": 2},
 		Assumptions:  []string{"time.After(d) fires no earlier than d"},
 	})
 }
 
 func runC13(c *Ctx) {
 	r := c.R
+	c.c13Deadlines()
 	hs, _ := c.handshakeFn()
 	if hs == nil {
 		r.Undecided("R1", "role:HandshakeFn", "-", "handshake function not found")
@@ -200,7 +203,7 @@ func runC13(c *Ctx) {
 	}
 	{
 		key := fname(dwrFn) + ":same-dwr"
-		recv := rl.write.Call.Args[0]
+		recv := rl.msgArg()
 		inLoop := false
 		if in, ok := recv.(ssa.Instruction); ok && rl.loop.Blocks[in.Block()] {
 			inLoop = true
@@ -304,14 +307,14 @@ func runC13(c *Ctx) {
 				if !ok || sl.Blocking || len(sl.States) != 1 || sl.States[0].Dir != types.RecvOnly || !sameVal(sl.States[0].Chan, ackv) && !samePath(sl.States[0].Chan, ackv) {
 					return
 				}
-				if flow.Dominates(sl, rl.write) && !rl.loop.Blocks[sl.Block()] {
+				if flow.Dominates(sl, rl.writeAt()) && !rl.loop.Blocks[sl.Block()] {
 					drained = true
 				}
 			})
 			// … or a helper called before the loop that does exactly that with the channel it is handed
 			for _, ci := range flow.CallInstrs(rl.fn) {
 				h := flow.StaticCallee(ci)
-				if h == nil || h.Blocks == nil || !c.P.IsLibrary(h) || !flow.Dominates(ci, rl.write) || rl.loop.Blocks[ci.Block()] {
+				if h == nil || h.Blocks == nil || !c.P.IsLibrary(h) || !flow.Dominates(ci, rl.writeAt()) || rl.loop.Blocks[ci.Block()] {
 					continue
 				}
 				for i, a := range ci.Common().Args {
@@ -752,4 +755,82 @@ func fieldAddrName(fa *ssa.FieldAddr) (string, string, bool) {
 		name = n.Obj().Name()
 	}
 	return name, st.Field(fa.Field).Name(), true
+}
+
+// c13Deadlines: R5 — who may put a deadline on reads. Between two watchdog rounds a healthy connection carries
+// nothing for up to WatchdogInterval, so the only legitimate source of a read deadline is the application's own
+// Server.ReadTimeout; the library neither derives a deadline from anything else nor assigns that setting.
+func (c *Ctx) c13Deadlines() {
+	r := c.R
+	nSet, nStores, nServerStores := 0, 0, 0
+	for _, f := range c.P.LibraryFuncs() {
+		for _, ci := range flow.CallInstrs(f) {
+			com := ci.Common()
+			if !com.IsInvoke() || (com.Method.Name() != "SetReadDeadline" && com.Method.Name() != "SetDeadline") || len(com.Args) != 1 {
+				continue
+			}
+			nSet++
+			key := fmt.Sprintf("%s:%s-from-ReadTimeout", fname(f), com.Method.Name())
+			// the deadline: time.Now().Add(d) with d a load of Server.ReadTimeout, under ReadTimeout > 0
+			fromSetting := func(v ssa.Value) bool {
+				tn, fld, _, ok := flow.FieldOf(flow.Peel(v))
+				return ok && tn == "Server" && fld == "ReadTimeout"
+			}
+			derives := false
+			if add, ok := com.Args[0].(*ssa.Call); ok && flow.IsCallTo(add, "time", "Time", "Add") && len(add.Call.Args) == 2 {
+				d := add.Call.Args[1]
+				if fromSetting(d) {
+					derives = true
+				}
+				if ph, isPhi := d.(*ssa.Phi); isPhi {
+					derives = len(ph.Edges) > 0
+					for _, e := range ph.Edges {
+						if !fromSetting(e) {
+							derives = false
+						}
+					}
+				}
+			}
+			// a zero time.Time clears the deadline: always fine
+			if _, isZero := com.Args[0].(*ssa.Const); isZero {
+				derives = true
+			}
+			guarded := false
+			for _, g := range flow.Guards(ci) {
+				rl, ok := condRel(g.If.Cond, g.Taken)
+				if ok && fromSetting(rl.a) && isZeroConst(rl.b) && (rl.op == token.GTR || rl.op == token.NEQ) {
+					guarded = true
+				}
+			}
+			if _, isZero := com.Args[0].(*ssa.Const); isZero {
+				guarded = true
+			}
+			r.Check(derives && guarded, "R5", key, c.pos(ci), "the read deadline is now + Server.ReadTimeout, armed only when that setting is positive", "a read deadline is armed that does not come from the application's Server.ReadTimeout (under its > 0 test): an idle but healthy connection — nothing travels between two watchdog rounds — is closed although every DWR was answered")
+		}
+		flow.Instrs(f, func(in ssa.Instruction) {
+			st, ok := in.(*ssa.Store)
+			if !ok {
+				return
+			}
+			tn, fld, _, ok := flow.FieldOf(st.Addr)
+			if !ok || tn != "Server" {
+				return
+			}
+			nServerStores++
+			if fld == "ReadTimeout" {
+				nStores++
+				r.Fail("R5", fname(f)+":assigns-Server.ReadTimeout", c.pos(st), "the library assigns Server.ReadTimeout itself ("+short(st.Val.String(), 40)+"): a per-message read deadline the application did not ask for closes an idle connection between two watchdog rounds although every DWR is answered")
+			}
+		})
+	}
+	if nSet == 0 {
+		r.Trivial("R5", "read-deadline:none", "-", "no read deadline is ever armed by the library")
+	}
+	if nStores == 0 {
+		if nServerStores == 0 {
+			r.Undecided("R5", "Server.ReadTimeout:never-assigned", "-", "no store to any field of diam.Server was seen: the scan is blind (anchor unresolved?)")
+		} else {
+			r.Ok("R5", "Server.ReadTimeout:never-assigned", "-", fmt.Sprintf("%d stores to fields of diam.Server in the library, none to ReadTimeout", nServerStores))
+		}
+	}
 }
